@@ -410,6 +410,24 @@ def check(ctx, rep):
              "requests are accepted by it, so a listed member is never refused by a second reading of the archive", floor=1)
     pb = ctx.cls("protocols.base.BaseGopherProtocol")
     archive_index_obligations(ctx, rep, eff, "R05j")
+    rep.rule("R05l", "= R09a (selectors only): the selector a gophermap link advertises is the one written in the file - a line ends at the line feed "
+             "and nowhere else, relative selectors get the directory in front - so the advertised object is the one that exists", floor=1)
+    from .c09 import DIRS as _DIRS, LINES as _LINES, evaluate_prepare as _evaluate_prepare
+    H_ = ctx.cls("handlers.gophermap.BuckGophermapHandler")
+    prep_ = prog.resolve_method(H_, "prepare") if H_ else None
+    if prep_ is None:
+        rep.fail("R05l", "BuckGophermapHandler.prepare", detail="gophermap handler not found")
+    else:
+        selector_, base_ = _DIRS[0]
+        got_, why_ = _evaluate_prepare(ctx, H_, prep_, selector_, [l for l, _ in _LINES])
+        if got_ is None:
+            rep.fail("R05l", f"{prep_.qualname}: selectors of a scripted gophermap", ctx.where(prep_), why_, key="R05l|undetermined")
+        else:
+            want_ = [exp[3].replace("{B}", base_) for _, exp in _LINES if exp[0] == "link"]
+            have_ = [e[3] for e in got_[0] if e and e[0] == "link"]
+            rep.add("R05l", f"{prep_.qualname}: selectors of a scripted gophermap [{len(want_)} links]", have_ == want_, ctx.where(prep_),
+                    "" if have_ == want_ else f"the links advertise {[x for x in have_ if x not in want_][:3]!r}; the file names {[x for x in want_ if x not in have_][:3]!r}",
+                    key="R05l|selectors")
 
     # ------------------------------------------------------------------ R05a
     for P in ctx.protocol_classes():
@@ -959,8 +977,11 @@ def request_target_evaluation(ctx, rep, rule="R05g"):
             from ..structure import inline_attr_setters
 
             w = Walker(prog, ctx.resolver, assumptions=facts, sticky=set(facts), raise_points=rp, call_value=cv, exact_loops=True, unroll=4,
-                       inline=lambda fn, t, d: d < 3 and t.bound_cls is not None and fn.name not in (
-                           "gethandler", "writedir", "filenotfound", "log", "renderobjinfo", "headerslurp", "write_status", "handlerwrite", "canhandlerequest"))
+                       inline=lambda fn, t, d: d < 3 and (t.bound_cls is not None or (fn.cls is None and fn.module.name.startswith("pygopherd")
+                                                                                       and fn.module.name not in ("pygopherd.logger", "pygopherd.GopherExceptions"))
+                                                          or (fn.cls is not None and P is not None and prog.is_subclass(P, fn.cls))) and fn.name not in (
+                           "gethandler", "writedir", "filenotfound", "log", "renderobjinfo", "headerslurp", "write_status", "handlerwrite", "canhandlerequest",
+                           "getHandler"))
             got = set()
             for p in w.run(h, P, facts=dict(facts)):
                 if p.kind == "raise" and str(p.value) == "StopAtLookup":
